@@ -263,8 +263,11 @@ def gen_retry_spec(rng: random.Random) -> dict:
     return spec
 
 
-def gen_wait_spec(rng: random.Random) -> dict:
-    """steps suspended in wait_for_event; responses (duplicates, non-matching, early/late) arrive from outside"""
+def gen_wait_spec(rng: random.Random, retried: bool = False) -> dict:
+    """steps suspended in wait_for_event; responses (duplicates, non-matching, early/late) arrive from outside.
+    `retried` (family "wait_retry"): the waiting step has a retry policy and fails before and/or after the wait, optionally
+    on a lineage whose exhausted failures go to a @catch_error handler that sends the event back.  Off by default so that
+    the streams of the checks built on the plain wait family stay what they were."""
     reqk = rng.choice([None, 1, 2])
     timeout = rng.choice([None, 5, 20])
     wty = rng.choice([3, 11])
@@ -302,6 +305,8 @@ def gen_wait_spec(rng: random.Random) -> dict:
         ks = rng.sample([1, 2, 3], rng.randint(2, 3))
         start["script"] = [["send", 5, rng.choice([None, "s02"]), k] for k in ks] + [["ret", "none"]]
     steps = [start, waiter, other]
+    if retried:
+        steps += _retried_wait(rng, waiter, own)
     rng.shuffle(steps)
     ext = []
     for _ in range(rng.randint(0, 4)):
@@ -310,6 +315,51 @@ def gen_wait_spec(rng: random.Random) -> dict:
     if rng.random() < 0.2:
         ext.append({"op": "snapshot", "after_quiet": rng.randint(0, 4)})
     return {"steps": steps, "externals": ext}
+
+
+def _retried_wait(rng: random.Random, waiter: dict, own: bool) -> list[dict]:
+    """give the waiting step a retry policy and failures around its wait(s) (in place); returns extra steps (a handler).
+
+    * before: the invocation fails `n` times, its retry then suspends in the wait — the replay must continue that retry
+      (retry_info().retry_number = n, not 0 again: with a fresh attempt `fail_until` would fire again);
+    * after: the replay of the suspended invocation fails and is retried through the (already resolved / timed-out) waiter;
+    * both / after_always: the budget is exhausted after the wait — reported attempts count the failures before the wait;
+    * timeout_loop: every round suspends (one waiter id per invocation, short timeout, TimeoutError raised), fails, goes to
+      a handler that sends a new event to the waiting step: the lineage's recovery counts must survive each suspension."""
+    sc = waiter["script"]
+    wi = [i for i, a in enumerate(sc) if a[0] == "wait"]
+    kind = rng.choice(["before", "before", "after", "both", "after_always", "timeout_loop"])
+    e = rng.randint(1, 9)
+    if kind == "before":
+        n = rng.randint(1, 2)
+        sc.insert(wi[0], ["fail_until", n, e])
+        budget = n + rng.randint(1, 2)
+    elif kind == "after":
+        n = rng.randint(1, 2)
+        sc.insert(wi[-1] + 1, ["fail_until", n, e])
+        budget = n + rng.randint(0, 2)
+    elif kind == "both":
+        sc.insert(wi[-1] + 1, ["fail_always", e])
+        sc.insert(wi[0], ["fail_until", 1, rng.randint(1, 9)])
+        budget = rng.randint(2, 4)
+    elif kind == "after_always":
+        sc.insert(wi[-1] + 1, ["fail_always", e])
+        budget = rng.randint(1, 3)
+    else:
+        for a in sc:
+            if a[0] == "wait":
+                a[3] = rng.choice([2, 5])
+                a[6] = "raise"
+                if not own and a[4] in ("w01", "w02"):
+                    a[4] = "per"
+        budget = rng.randint(1, 2)
+    waiter["retry"] = {"kind": "attempts", "n": max(budget, 1), "wait": rng.choice([0, 0, 2])}
+    extra: list[dict] = []
+    if kind == "timeout_loop" or rng.random() < 0.5:
+        extra.append({"name": "s12", "accepts": [4], "role": "handler", "for_steps": rng.choice([None, ["s02"]]),
+                      "max_rec": rng.randint(1, 3),
+                      "script": [["ret", rng.choice(["5", "5", "5", "stop", "none"]) if kind != "timeout_loop" else rng.choice(["5", "5", "5", "stop"])]]})
+    return extra
 
 
 def gen_det_spec(rng: random.Random, *, delays: bool = False) -> dict:
@@ -354,4 +404,6 @@ def gen_spec(rng: random.Random, **kw: Any) -> dict:  # type: ignore[no-redef]
         return gen_fanin_spec(rng, raise_incomplete=bool(kw.get("raise_incomplete")))
     if fam == "retry" or (fam is None and r < 0.85):
         return gen_retry_spec(rng)
+    if fam == "wait_retry":
+        return gen_wait_spec(rng, retried=True)
     return gen_wait_spec(rng)
